@@ -23,6 +23,7 @@ func init() {
 		Rules: map[string]string{
 			"R1": "initial wait == time.After(10ms + Duration(rand.Float64()*90ms)) in a select with ctx.Done(); loop test `i <= 3` on a counter starting at 0 with step 1; exactly one call of the acquisition function per iteration; inter-attempt wait == time.After(CalculateBackoff(DefaultBackoffConfig(), i)) in a select with ctx.Done()",
 			"R2": "fn() is under the breaker mutex; unreachable from the edge state==Open && since<cooldown; failures+1 on error; state=Open iff threshold <= failures (non-strict); failures=0 and state=Closed on success",
+			"R6": "every store to a field of CircuitBreaker (other than its mutex) is in Call, in a function reached only from Call, or on an object allocated in the storing function (constructor)",
 			"R4": "in CalculateBackoff every float->integer conversion is applied to a value that depends on math.Pow only through a phi edge on which (value <= MaxBackoff) or (value < MaxBackoff) holds; calls (builtin min, math.Abs, helpers) pass the dependence on (one necessary condition of the numeric clause: no int64 overflow of the unclamped exponential, no NaN)",
 			"R5": "at the float->integer conversion in CalculateBackoff: the converted value is, through its phis, a constant in [0, 2^63) or a value v with a holding literal `K <= v` (K >= 0) among the edge's guards; and the guards at the conversion contain NOT (K <= v) or (v < K) for a constant K <= 2^63",
 			"R3": "invocations = calls of the function parameter / CircuitBreaker.Call(it) in RetryWithBackoff and its single-call-site helpers; path exploration (following helper returns into the caller with the returned constants, under the stated assumption) finds no second invocation after: result nil | IsPermanentError true | ctx.Err() != nil edge | ctx.Done() case of the wait | MaxAttempts-1 <= attempt under 0 < MaxAttempts | MaxAttempts < 0; exactly one bounded wait, CalculateBackoff(cfg.BackoffConfig, counter), on every path between two invocations; counter from 0 step 1",
@@ -33,6 +34,7 @@ func init() {
 func checkC17(c *Ctx) {
 	acquisitionRoundRule(c, "R1")
 	breakerRule(c, "R2")
+	breakerWritersRule(c, "R6")
 	retryLoopRule(c, "R3")
 	backoffClampRule(c, "R4")
 }
@@ -815,6 +817,94 @@ func breakerRule(c *Ctx, rule string) {
 		}, nil)
 		m.descend = nil
 		c.check(!resetMissing && !closeMissing, rule, "every success resets the count and closes the breaker", op, "with the operation's result nil a path reaches the return of Call without failures = 0: %v; without state = Closed: %v (a breaker that closes after a half-open probe but keeps its count re-opens on the next single failure)", resetMissing, closeMissing)
+	}
+}
+
+// breakerWritersRule: the breaker's state evolves only through Call. "Opens after exactly
+// failureThreshold consecutive failures" and "never invokes the operation while open within its
+// cooldown" are statements about the sequence of Call results; they can hold for every history only
+// if nothing else (a getter that "refreshes" the state, a metrics hook) writes the count, the state
+// or the time of the last failure.
+func breakerWritersRule(c *Ctx, rule string) {
+	m := c.M
+	var callFn *ssa.Function
+	for _, f := range m.Funcs {
+		if f.Name() == "Call" && f.Signature.Recv() != nil && namedOf(f.Signature.Recv().Type()) != nil && namedOf(f.Signature.Recv().Type()).Obj().Name() == "CircuitBreaker" {
+			callFn = f
+		}
+	}
+	if callFn == nil {
+		c.undecided(rule, "CircuitBreaker.Call", nil, "method not found")
+		return
+	}
+	memo := map[*ssa.Function]int{} // 1 only from Call, 2 not
+	var onlyFromCall func(g *ssa.Function, depth int) bool
+	onlyFromCall = func(g *ssa.Function, depth int) bool {
+		if g == callFn {
+			return true
+		}
+		if v, ok := memo[g]; ok {
+			return v == 1
+		}
+		memo[g] = 2 // cycles: not from Call alone
+		if depth > 6 {
+			return false
+		}
+		if g.Parent() != nil {
+			if onlyFromCall(g.Parent(), depth+1) {
+				memo[g] = 1
+				return true
+			}
+			return false
+		}
+		if obj := g.Object(); obj == nil || obj.Exported() {
+			return false
+		}
+		sites := m.callers[g]
+		if len(sites) == 0 {
+			return false
+		}
+		for _, s := range sites {
+			if !onlyFromCall(s.Caller, depth+1) {
+				return false
+			}
+		}
+		memo[g] = 1
+		return true
+	}
+	n := 0
+	for _, f := range m.Funcs {
+		eachInstr(f, func(in ssa.Instruction) {
+			st, ok := in.(*ssa.Store)
+			if !ok {
+				return
+			}
+			fa, ok := st.Addr.(*ssa.FieldAddr)
+			if !ok {
+				return
+			}
+			nt := namedOf(fa.X.Type())
+			if nt == nil || nt.Obj().Name() != "CircuitBreaker" || nt.Obj().Pkg() != m.P.Leader.Pkg {
+				return
+			}
+			stt, _ := nt.Underlying().(*types.Struct)
+			if stt == nil {
+				return
+			}
+			field := stt.Field(fa.Field)
+			if fn := namedOf(field.Type()); fn != nil && fn.Obj().Pkg() != nil && fn.Obj().Pkg().Path() == "sync" {
+				return
+			}
+			if _, fresh := fa.X.(*ssa.Alloc); fresh {
+				return
+			}
+			n++
+			c.check(onlyFromCall(f, 0), rule, fmt.Sprintf("store to CircuitBreaker.%s in %s", field.Name(), shortFn(f)), in,
+				"the storing function is Call or reached only from Call: %v (a getter, hook or reset that writes the breaker's count/state changes after how many consecutive failures it opens and whether a failed probe re-opens it)", onlyFromCall(f, 0))
+		})
+	}
+	if n == 0 {
+		c.undecided(rule, "stores to the breaker's fields", firstInstr(callFn), "none found: the breaker's state is kept somewhere this rule does not see")
 	}
 }
 
